@@ -147,6 +147,8 @@ pub struct Task {
     pub fetch: FetchRequest,
     pub stream: StreamId,
     pub channels: Channels,
+    /// The connection this task was started on.
+    pub session: reactor::ResourceId,
 }
 
 /// Worker response.
@@ -155,6 +157,8 @@ pub struct TaskResult {
     pub remote: NodeId,
     pub result: FetchResult,
     pub stream: StreamId,
+    /// The connection the task was started on.
+    pub session: reactor::ResourceId,
 }
 
 #[derive(Debug, Clone)]
@@ -196,6 +200,7 @@ impl Worker {
             fetch,
             channels,
             stream,
+            session,
         } = task;
         let remote = fetch.remote();
         let channels = channels::ChannelsFlush::new(self.handle.clone(), channels, remote, stream);
@@ -209,6 +214,7 @@ impl Worker {
                 remote,
                 stream,
                 result,
+                session,
             })
             .is_err()
         {
